@@ -25,6 +25,18 @@ type PubSub[T any] struct {
 
 	subs  []*subscription[T]
 	mutex sync.RWMutex
+	// parent is set on the publishers returned by WithOnly. They share their
+	// subscriptions with the publisher they were made from, so they must share its
+	// lock too: otherwise that publisher could remove and close a subscription
+	// while this one is sending to it.
+	parent *PubSub[T]
+}
+
+func (o *PubSub[T]) mu() *sync.RWMutex {
+	if o.parent != nil {
+		return o.parent.mu()
+	}
+	return &o.mutex
 }
 
 // subscription is a subscribed channel together with what is needed to
@@ -40,6 +52,17 @@ type subscription[T any] struct {
 	senders sync.WaitGroup
 }
 
+// removed reports whether the subscription has been unsubscribed. The answer
+// is stable while the lock is held.
+func (s *subscription[T]) removed() bool {
+	select {
+	case <-s.done:
+		return true
+	default:
+		return false
+	}
+}
+
 func newSubscription[T any](size int) *subscription[T] {
 	return &subscription[T]{ch: make(chan T, size), done: make(chan struct{})}
 }
@@ -47,39 +70,48 @@ func newSubscription[T any](size int) *subscription[T] {
 // Pub sends the event to all subscriptions in their own goroutines and returns
 // immediately without waiting for any of the channels to finish sending.
 func (o *PubSub[T]) Pub(ev T) {
-	o.mutex.RLock()
+	o.mu().RLock()
 	for _, sub := range o.subs {
+		if sub.removed() {
+			continue
+		}
 		sub.senders.Add(1)
 		go o.sendAsync(ev, sub, o.PubTimeoutAfter, o.OnPubTimeout)
 	}
-	o.mutex.RUnlock()
+	o.mu().RUnlock()
 }
 
 // PubSlice sends a slice of events to all subscriptions in their own goroutines
 // and returns immediately without waiting for any of the channels to finish
 // sending.
 func (o *PubSub[T]) PubSlice(evs []T) {
-	o.mutex.RLock()
+	o.mu().RLock()
 	for _, ev := range evs {
 		for _, sub := range o.subs {
+			if sub.removed() {
+				continue
+			}
 			sub.senders.Add(1)
 			go o.sendAsync(ev, sub, o.PubTimeoutAfter, o.OnPubTimeout)
 		}
 	}
-	o.mutex.RUnlock()
+	o.mu().RUnlock()
 }
 
 // PubWait blocks while sending the event to all subscriptions in their own
 // goroutines, and waits until all have received the message or timed out.
 func (o *PubSub[T]) PubWait(ev T) {
 	var wg sync.WaitGroup
-	o.mutex.RLock()
-	wg.Add(len(o.subs))
+	o.mu().RLock()
 	for _, sub := range o.subs {
+		if sub.removed() {
+			continue
+		}
+		wg.Add(1)
 		sub.senders.Add(1)
 		go o.sendWaitGroup(ev, sub, o.PubTimeoutAfter, o.OnPubTimeout, &wg)
 	}
-	o.mutex.RUnlock()
+	o.mu().RUnlock()
 	wg.Wait()
 }
 
@@ -88,15 +120,18 @@ func (o *PubSub[T]) PubWait(ev T) {
 // timed out.
 func (o *PubSub[T]) PubSliceWait(evs []T) {
 	var wg sync.WaitGroup
-	o.mutex.RLock()
-	wg.Add(len(o.subs) * len(evs))
+	o.mu().RLock()
 	for _, ev := range evs {
 		for _, sub := range o.subs {
+			if sub.removed() {
+				continue
+			}
+			wg.Add(1)
 			sub.senders.Add(1)
 			go o.sendWaitGroup(ev, sub, o.PubTimeoutAfter, o.OnPubTimeout, &wg)
 		}
 	}
-	o.mutex.RUnlock()
+	o.mu().RUnlock()
 	wg.Wait()
 }
 
@@ -104,11 +139,11 @@ func (o *PubSub[T]) PubSliceWait(evs []T) {
 // without starting a single goroutine. Useful in performance-critical use cases
 // where there are a low expected number of subscribers (0-3).
 func (o *PubSub[T]) PubSync(ev T) {
-	o.mutex.RLock()
+	o.mu().RLock()
 	for _, sub := range o.subs {
-		o.send(ev, sub, o.PubTimeoutAfter, o.OnPubTimeout)
+		o.sendSync(ev, sub, o.PubTimeoutAfter, o.OnPubTimeout)
 	}
-	o.mutex.RUnlock()
+	o.mu().RUnlock()
 }
 
 // PubSliceSync blocks while sending a slice of events syncronously to all
@@ -116,18 +151,19 @@ func (o *PubSub[T]) PubSync(ev T) {
 // performance-critical use cases where there are a low expected number of
 // subscribers (0-3).
 func (o *PubSub[T]) PubSliceSync(evs []T) {
-	o.mutex.RLock()
+	o.mu().RLock()
 	for _, ev := range evs {
 		for _, sub := range o.subs {
-			o.send(ev, sub, o.PubTimeoutAfter, o.OnPubTimeout)
+			o.sendSync(ev, sub, o.PubTimeoutAfter, o.OnPubTimeout)
 		}
 	}
-	o.mutex.RUnlock()
+	o.mu().RUnlock()
 }
 
 // send hands the event to the subscription, gives up after the timeout (if
-// positive), and drops the event if the subscription is removed meanwhile.
-func (o *PubSub[T]) send(ev T, sub *subscription[T], timeout time.Duration, onTimeout func(T)) {
+// positive), and drops the event if the subscription is removed meanwhile. It
+// reports whether it gave up because of the timeout.
+func (o *PubSub[T]) send(ev T, sub *subscription[T], timeout time.Duration) (timedOut bool) {
 	var timeoutC <-chan time.Time
 	if timeout > 0 {
 		timer := time.NewTimer(timeout)
@@ -138,58 +174,74 @@ func (o *PubSub[T]) send(ev T, sub *subscription[T], timeout time.Duration, onTi
 	case sub.ch <- ev:
 	case <-sub.done:
 	case <-timeoutC:
-		if onTimeout != nil {
-			onTimeout(ev)
-		}
+		return true
+	}
+	return false
+}
+
+// sendSync is the send of PubSync and PubSliceSync: the caller holds the read
+// lock, so the subscription cannot be removed under it.
+func (o *PubSub[T]) sendSync(ev T, sub *subscription[T], timeout time.Duration, onTimeout func(T)) {
+	if sub.removed() {
+		return
+	}
+	if o.send(ev, sub, timeout) && onTimeout != nil {
+		onTimeout(ev)
 	}
 }
 
+// sendAsync and sendWaitGroup run in their own goroutine. The timeout callback
+// is called after the goroutine has stopped counting as a sender of the
+// subscription, so that it may itself unsubscribe the channel that was too slow.
 func (o *PubSub[T]) sendAsync(ev T, sub *subscription[T], timeout time.Duration, onTimeout func(T)) {
-	defer sub.senders.Done()
-	o.send(ev, sub, timeout, onTimeout)
+	timedOut := o.send(ev, sub, timeout)
+	sub.senders.Done()
+	if timedOut && onTimeout != nil {
+		onTimeout(ev)
+	}
 }
 
 func (o *PubSub[T]) sendWaitGroup(ev T, sub *subscription[T], timeout time.Duration, onTimeout func(T), wg *sync.WaitGroup) {
 	defer wg.Done()
-	defer sub.senders.Done()
-	o.send(ev, sub, timeout, onTimeout)
+	o.sendAsync(ev, sub, timeout, onTimeout)
 }
 
 // WithOnly returns a new publisher that only contains the given subscription
 // channel. Useful if you need to send events only to a single specific
 // subscription.
 func (o *PubSub[T]) WithOnly(sub <-chan T) *PubSub[T] {
-	o.mutex.RLock()
+	o.mu().RLock()
 	clone := &PubSub[T]{
 		OnPubTimeout:    o.OnPubTimeout,
 		PubTimeoutAfter: o.PubTimeoutAfter,
+		parent:          o,
 	}
 	for _, s := range o.subs {
 		if s.ch == sub {
 			clone.subs = append(clone.subs, s)
 		}
 	}
-	o.mutex.RUnlock()
+	o.mu().RUnlock()
 	return clone
 }
 
 // Sub subscribes to events in a newly created channel using the default buffer
 // size for this PubSub. If no default is configured, the buffer size will be 0.
 func (o *PubSub[T]) Sub() <-chan T {
-	o.mutex.Lock()
+	o.mu().Lock()
 	sub := newSubscription[T](o.DefaultBuffer)
 	o.subs = append(o.subs, sub)
-	o.mutex.Unlock()
+	o.mu().Unlock()
 	return sub.ch
 }
 
 // SubBuf subscribes to events in a newly created channel with a specified
 // buffer size.
 func (o *PubSub[T]) SubBuf(size int) <-chan T {
-	o.mutex.Lock()
+	o.mu().Lock()
 	sub := newSubscription[T](size)
 	o.subs = append(o.subs, sub)
-	o.mutex.Unlock()
+	o.mu().Unlock()
 	return sub.ch
 }
 
@@ -198,16 +250,16 @@ func (o *PubSub[T]) Unsub(sub <-chan T) error {
 	if sub == nil {
 		return ErrSubscriptionNotInitalized
 	}
-	o.mutex.Lock()
+	o.mu().Lock()
 	idx := o.subIndex(sub)
 	if idx == -1 {
-		o.mutex.Unlock()
+		o.mu().Unlock()
 		return ErrAlreadyUnsubscribed
 	}
 	removed := o.subs[idx]
 	o.subs = append(o.subs[:idx], o.subs[idx+1:]...)
 	close(removed.done)
-	o.mutex.Unlock()
+	o.mu().Unlock()
 	removed.close()
 	return nil
 }
@@ -222,13 +274,13 @@ func (s *subscription[T]) close() {
 
 // UnsubAll unsubscribes all subscription channels, rendering them all useless.
 func (o *PubSub[T]) UnsubAll() error {
-	o.mutex.Lock()
+	o.mu().Lock()
 	removed := o.subs
 	o.subs = nil
 	for _, sub := range removed {
 		close(sub.done)
 	}
-	o.mutex.Unlock()
+	o.mu().Unlock()
 	for _, sub := range removed {
 		sub.close()
 	}
